@@ -70,8 +70,37 @@ pub fn run_limited(bin: &Path, args: &[String], cwd: Option<&Path>, cpu_s: u32) 
     run_limited_stdin(bin, args, cwd, cpu_s, None)
 }
 
-/// same, with the input given on stdin (the commands read stdin when no file is named)
+pub static SLOW_BUT_TERMINATING: std::sync::atomic::AtomicU64 = std::sync::atomic::AtomicU64::new(0);
+static CONFIRMED_HANGS: std::sync::atomic::AtomicU64 = std::sync::atomic::AtomicU64::new(0);
+
+/// same, with the input given on stdin (the commands read stdin when no file is named). A run
+/// that exceeds the CPU-time limit is repeated once with fifteen times the limit: only a run that
+/// exceeds that as well is a hang (an input that is merely slow, e.g. 400 nested unary minus
+/// signs in the unoptimised build, terminates within it). After three confirmed hangs further
+/// limit-exceeders are not re-run and count as inconclusive.
 pub fn run_limited_stdin(bin: &Path, args: &[String], cwd: Option<&Path>, cpu_s: u32, stdin: Option<&Path>) -> Class {
+    use std::sync::atomic::Ordering;
+    match run_once(bin, args, cwd, cpu_s, stdin) {
+        Class::Hang => {
+            if CONFIRMED_HANGS.load(Ordering::Relaxed) >= 3 {
+                return Class::Inconclusive("exceeded the CPU-time limit; not re-run with the extended limit after three confirmed hangs".into());
+            }
+            match run_once(bin, args, cwd, cpu_s * 15, stdin) {
+                Class::Hang => {
+                    CONFIRMED_HANGS.fetch_add(1, Ordering::Relaxed);
+                    Class::Hang
+                }
+                other => {
+                    SLOW_BUT_TERMINATING.fetch_add(1, Ordering::Relaxed);
+                    other
+                }
+            }
+        }
+        c => c,
+    }
+}
+
+fn run_once(bin: &Path, args: &[String], cwd: Option<&Path>, cpu_s: u32, stdin: Option<&Path>) -> Class {
     let mut sh = Command::new("sh");
     let mut script = format!("ulimit -t {cpu_s}; ulimit -c 0; exec \"$0\" \"$@\"");
     if false {
@@ -243,7 +272,10 @@ pub fn mutate(r: &mut Rng, text: &str) -> String {
             5 => toks.insert(i, ["(", ")", "((((", "))))", "{", "}", "[", "]", ".", ",", ";", ":", "$", "#", "%", "\n", "\"", "'"][r.upto(18)].to_string()),
             6 => {
                 // deep nesting
-                let d = [10, 100, 400][r.upto(3)];
+                // (anthem's running time grows steeply with the nesting depth of some operators:
+                // 400 unary minus signs take about 30 s of CPU in the release build; the deepest
+                // level is therefore drawn rarely)
+                let d = if r.chance(1, 12) { 400 } else { [10, 60, 150][r.upto(3)] };
                 let open = ["(", "not ", "-", "-(", "not not ", "forall X "][r.upto(6)];
                 toks.insert(i, open.repeat(d));
                 if open.ends_with('(') && r.chance(1, 2) {
@@ -724,6 +756,7 @@ pub fn run(cfg: &Config) -> i32 {
     let mut stats = parallel(cfg, "single", cfg.scaled(cfg.pick(1_000, 400_000)), budget, |idx, r, st| batch_case(cfg, &tmp, &corpus, &cmds, idx, r, st));
     let s2 = parallel(cfg, "verify", cfg.scaled(cfg.pick(1500, 1_000_000)), budget / 2, |idx, r, st| verify_case(cfg, &tmp, &corpus, idx, r, st));
     stats.merge(s2);
+    stats.add("runs_over_the_cpu_limit_that_terminate_within_the_extended_limit", SLOW_BUT_TERMINATING.load(std::sync::atomic::Ordering::Relaxed));
     let mut known_replayed = Vec::new();
     for k in load_known(cfg).into_iter().filter(|k| k.property == "C16" && k.status == "open") {
         let still = replay_known(cfg, &tmp, &k);
@@ -736,7 +769,7 @@ pub fn run(cfg: &Config) -> i32 {
         Outcome {
             stats,
             level: "exploration",
-            rule: "byte strings up to 4 KB: files of res/examples and generated programs/theories/specifications/user guides mutated by token deletion/duplication/swap, numeral inflation to and beyond the isize/usize limits, operator soup, unbalanced and deep nesting, huge arities, role swaps, truncation, control and non-ASCII characters, empty and comment-only files; every input goes through a pre-filter (the same library calls the commands make, with catch_unwind, run in a child process under a CPU-time limit so that a hang or stack overflow of the library is attributed to its input); every candidate and a random sample of non-candidates is run through the real binary in a subprocess in release and dev profile, plus `verify --no-proof-search` on task directories with one mutated file; classification by exit status, signal, stderr and CPU-time limit (20 s), wall-clock watchdog = inconclusive; a case is a distinct input text".into(),
+            rule: "byte strings up to 4 KB: files of res/examples and generated programs/theories/specifications/user guides mutated by token deletion/duplication/swap, numeral inflation to and beyond the isize/usize limits, operator soup, unbalanced and deep nesting, huge arities, role swaps, truncation, control and non-ASCII characters, empty and comment-only files; every input goes through a pre-filter (the same library calls the commands make, with catch_unwind, run in a child process under a CPU-time limit so that a hang or stack overflow of the library is attributed to its input); every candidate and a random sample of non-candidates is run through the real binary in a subprocess in release and dev profile, plus `verify --no-proof-search` on task directories with one mutated file; classification by exit status, signal, stderr and CPU-time limit (20 s; a run over the limit is repeated with 300 s and only a run over that is a hang), wall-clock watchdog = inconclusive; a case is a distinct input text".into(),
             assumptions: vec!["a non-zero exit with a message on stderr and no `panicked at` is a reported error".into()],
             floor: cfg.pick(2_000, 20_000),
             floor_counter: "subprocess_runs".into(),
